@@ -9,6 +9,7 @@ import Driver.Bep44
 import Driver.Rate
 import Driver.Krpc
 import Driver.Query
+import Driver.Getput
 open Drv
 
 structure St where
@@ -32,6 +33,7 @@ def step (s : St) (line : String) : St × String :=
   | "B44" :: args => let (b, o) := Drv.B44.stepB44 s.b44 args; ({ s with b44 := b }, o)
   | "RATE" :: args => let (c, o) := stepRate s.rate args; ({ s with rate := c }, o)
   | "KRPC" :: args => (s, stepKrpc args)
+  | "GETPUT" :: args => (s, Drv.Getput.stepGetput args)
   | "QRY" :: args => (s, stepQry args)
   | "TXN" :: args => let (c, o) := stepTxn s.txn args; ({ s with txn := c }, o)
   | _ => (s, "bad-op")
